@@ -23,6 +23,10 @@ import (
 	"syscall"
 )
 
+// MaxViolationsPerShard bounds the number of distinct signatures a shard records
+// (further ones are only counted).
+const MaxViolationsPerShard = 40
+
 // Violation is one property violation with a canonical one-line signature.
 type Violation struct {
 	Sig    string `json:"sig"`
@@ -207,6 +211,10 @@ func (c *Ctx) Violate(sig string, detail any, replay any) {
 	defer c.mu.Unlock()
 	if v, ok := c.vio[sig]; ok {
 		v.Count++
+		return
+	}
+	if len(c.vio) >= MaxViolationsPerShard {
+		c.F.Counters["violations_not_recorded"]++
 		return
 	}
 	v := &Violation{Sig: sig, Detail: detail, Replay: replay, Count: 1}
